@@ -158,13 +158,8 @@ private def parseImplExec (s : String) : List ImplExec :=
       | _, _ => none
     | _ => none
 
-/-- how many queue heads fit the per-block caps (count and summed gas limits) -/
-def fitCount (s : State) : List Nat → Nat → Nat → Nat
-  | [], _, _ => 0
-  | id :: rest, n, gas =>
-    if n = 0 then 0 else
-    let g := (s.gasLimits id).getD 0
-    if g + gas > MaximumQueueGas then 0 else 1 + fitCount s rest (n - 1) (gas + g)
+-- `fitCount` (how many queue heads fit the per-block caps) lives in `TrigSpec`:
+-- `PvProofs.C17.runs_exactly_the_triggers_that_fit` is about it.
 
 def verdictBegin (d : DState) (impl : String) : String :=
   let ws := words impl
